@@ -8,10 +8,12 @@ import (
 	"bytes"
 	"crypto/tls"
 	"fmt"
+	"io"
 	"net/http"
 	"os"
 	"strings"
 	"testing"
+	"testing/iotest"
 	"time"
 
 	"github.com/IrineSistiana/mosproxy/internal/upstream/transport"
@@ -468,7 +470,7 @@ func c03Huge(c *choice.Ctx, rep *report.R) {
 		n = 0
 		tail = 0
 		cl2 := cl // the same listener instance and, where the transport allows it, the same connection
-		if seam.name == "quic" || strings.HasPrefix(seam.name, "http") || strings.HasPrefix(seam.name, "fasthttp") {
+		if strings.HasPrefix(seam.name, "quic") || strings.HasPrefix(seam.name, "http") || strings.HasPrefix(seam.name, "fasthttp") {
 			cl2 = seam.open(v)
 		}
 		before := 0
@@ -636,11 +638,19 @@ func c03QuicOverlap(c *choice.Ctx, rep *report.R) {
 		seamIdle = 2 * time.Second
 		defer func() { seamIdle = was }()
 	}
-	desc := fmt.Sprintf("%d overlapping DoQ streams on one connection, upstream answers in order %v, %v apart (listener idle time-out %v)", n, perm, gap, min(seamIdle, defaultQuicIdleTimeout))
+	// ... and with a client limiter whose burst admits exactly one DoQ query: the first stream is admitted, the others - opened in the
+	// same instant - are refused (closed without a response, which the listener does by design); the admitted query still gets its
+	// response, however long its upstream takes and whatever happened to the other streams of its connection
+	limited := c.Choose(2, "limiter-admits-only-the-first-stream") == 1
+	desc := fmt.Sprintf("%d overlapping DoQ streams on one connection, upstream answers in order %v, %v apart (listener idle time-out %v), limiter admitting only the first: %v", n, perm, gap, min(seamIdle, defaultQuicIdleTimeout), limited)
 	fail := func(sig, msg string) {
-		rep.Violate("C03:quic:overlap:"+sig, msg+"\n  "+desc, map[string]any{"Choices": c.Choices(), "QuicOverlap": true})
+		rep.Violate("C03:quic:overlap:"+sig, msg+"\n  "+desc+pauseNote(), map[string]any{"Choices": c.Choices(), "QuicOverlap": true})
 	}
-	v, err := vNewRouter(c03Config("forward"), "u1")
+	ocfg := c03Config("forward")
+	if limited {
+		ocfg.Limiter = LimiterConfig{Client: ClientLimiterConfig{Limit: 1, Burst: costQUICQuery}}
+	}
+	v, err := vNewRouter(ocfg, "u1")
 	if err != nil {
 		fail("router-start", err.Error())
 		return
@@ -648,6 +658,8 @@ func c03QuicOverlap(c *choice.Ctx, rep *report.R) {
 	defer v.Close()
 	u := v.ups["u1"]
 	qs := v.newQuicServer()
+	pauseBegin(c) // (E4 part doq-overlap-preempt: one of the listener's goroutines may stand still between two statements)
+	defer pauseEnd()
 	conn := env.NewFakeQuicConn(vUDPAddr(vLocalV4), vUDPAddr(vClientV4))
 	go func() { // as quicServer.run does
 		qs.handleConn(conn)
@@ -665,13 +677,22 @@ func c03QuicOverlap(c *choice.Ctx, rep *report.R) {
 		wait()
 	}
 	pend := u.Pending()
-	if len(pend) != n {
-		fail("forwarding", fmt.Sprintf("%d of %d overlapping queries reached the upstream", len(pend), n))
+	admitted := n
+	if limited {
+		admitted = 1
 	}
+	if len(pend) != admitted && !paused() {
+		fail("forwarding", fmt.Sprintf("%d of %d overlapping queries reached the upstream (%d admitted)", len(pend), n, admitted))
+	}
+	due := map[int]bool{}
 	for _, pi := range perm {
+		due[pi] = true
 		for _, p := range u.Pending() {
-			if p.Msg != nil && len(p.Msg.Q) == 1 && p.Msg.Q[0].Name.Lower().Equal(refdns.N(fmt.Sprintf("ov%d", pi), "example", "test")) {
-				p.Reply(env.Answer(p.Msg, byte(pi+1), 60).Encode(false))
+			// (a query whose turn has come is answered when it shows up: a handler held at a pause point sends its query late)
+			for di := range due {
+				if p.Msg != nil && len(p.Msg.Q) == 1 && p.Msg.Q[0].Name.Lower().Equal(refdns.N(fmt.Sprintf("ov%d", di), "example", "test")) {
+					p.Reply(env.Answer(p.Msg, byte(di+1), 60).Encode(false))
+				}
 			}
 		}
 		wait()
@@ -680,10 +701,38 @@ func c03QuicOverlap(c *choice.Ctx, rep *report.R) {
 			wait()
 		}
 	}
+	// (a handler that was held back sends its upstream query only now: it is answered as well)
+	selOff()
+	pauseOff()
+	for round := 0; round < 3; round++ {
+		if resume() {
+			wait()
+		}
+		for _, p := range u.Pending() {
+			for i := 0; i < n; i++ {
+				if p.Msg != nil && len(p.Msg.Q) == 1 && p.Msg.Q[0].Name.Lower().Equal(refdns.N(fmt.Sprintf("ov%d", i), "example", "test")) {
+					p.Reply(env.Answer(p.Msg, byte(i+1), 60).Encode(false))
+				}
+			}
+		}
+		wait()
+	}
 	hsleep(7 * time.Second)
 	wait()
 	for i, st := range streams {
 		fs, rest := env.SplitFrames(st.E.Written())
+		if limited && i > 0 {
+			// refused by the limiter: nothing, or (should the listener ever say so) one REFUSED
+			bad := len(fs) > 1
+			if len(fs) == 1 {
+				m, err := refdns.Decode(fs[0])
+				bad = err != nil || m.RCode() != 5
+			}
+			if bad {
+				fail("refused-stream-answered", fmt.Sprintf("stream %d was refused by the limiter and carries %d frames", i, len(fs)))
+			}
+			continue
+		}
 		if len(fs) != 1 || rest != 0 {
 			fail("response-count", fmt.Sprintf("stream %d carries %d response frames (%d trailing octets): its query was answered on another stream, or its stream was closed under it", i, len(fs), rest))
 			continue
@@ -961,10 +1010,26 @@ func (t *c03HTTP) responses() ([]*refdns.Msg, [][]byte) {
 }
 func (t *c03HTTP) close() {}
 
-type c03Quic struct{ q *quicClient }
+type c03Quic struct {
+	q      *quicClient
+	pieces bool
+}
 
-func (t *c03Quic) send(m *refdns.Msg) { t.q.Send(refdns.Frame(m.Encode(false))); t.q.FinSend() }
-func (t *c03Quic) count() int         { f, _ := env.SplitFrames(t.q.Written()); return len(f) }
+func (t *c03Quic) send(m *refdns.Msg) {
+	f := refdns.Frame(m.Encode(false))
+	if t.pieces {
+		t.q.Send(f[:2])
+		wait()
+		t.q.Send(f[2 : 2+len(f[2:])/2])
+		wait()
+		t.q.Send(f[2+len(f[2:])/2:])
+		t.q.FinSend()
+		return
+	}
+	t.q.Send(f)
+	t.q.FinSend()
+}
+func (t *c03Quic) count() int { f, _ := env.SplitFrames(t.q.Written()); return len(f) }
 func (t *c03Quic) responses() ([]*refdns.Msg, [][]byte) {
 	return c03Decode(env.SplitFrames(t.q.Written()))
 }
@@ -1010,6 +1075,16 @@ var c03Seams = []c03Seam{
 			})
 		}}
 	}},
+	{"http-post-in-pieces", func(v *vRouter) c03Client {
+		// a POST of declared length whose body reaches the server in several pieces (header and body in different segments, several
+		// HTTP/2 DATA frames): a Read on the body returns what has arrived, not the whole body
+		h := v.newHTTPHandler()
+		return &c03HTTP{do: func(w []byte) *httpResult {
+			return vDoHRequest(h, "POST", w, vClientV4.String(), func(r *http.Request) {
+				r.Body = io.NopCloser(iotest.OneByteReader(bytes.NewReader(w)))
+			})
+		}}
+	}},
 	{"fasthttp-get", func(v *vRouter) c03Client {
 		h := v.newFastHTTPHandler()
 		return &c03HTTP{do: func(w []byte) *httpResult { return vFastDoHRequest(h, "GET", w, vClientV4, nil) }}
@@ -1026,7 +1101,14 @@ var c03Seams = []c03Seam{
 		}}
 	}},
 	{"quic", func(v *vRouter) c03Client {
-		return &c03Quic{v.quicStream(v.newQuicServer(), vClientV4, vLocalV4)}
+		return &c03Quic{q: v.quicStream(v.newQuicServer(), vClientV4, vLocalV4)}
+	}},
+	{"quic-in-pieces", func(v *vRouter) c03Client {
+		// the query reaches the stream in two pieces (length prefix, then the body; a query larger than a packet; reordering) and the
+		// FIN is known when the last piece is read: quic-go then returns the last octets together with io.EOF
+		q := v.quicStream(v.newQuicServer(), vClientV4, vLocalV4)
+		q.s.E.EOFWithLastData = true
+		return &c03Quic{q: q, pieces: true}
 	}},
 	{"udp", func(v *vRouter) c03Client {
 		u, err := v.udpClient("127.0.0.1")
@@ -1035,6 +1117,15 @@ var c03Seams = []c03Seam{
 		}
 		return &c03UDP{u}
 	}},
+}
+
+// TestVerifC03QuicOverlap: the overlapping-streams scenario alone (E4 part doq-overlap-preempt).
+func TestVerifC03QuicOverlap(t *testing.T) {
+	rep := report.New("C03 overlapping DoQ streams, with pause points")
+	defer rep.Write()
+	rep.Rule = "E3+E4: 2-3 DoQ streams overlapping on one connection through the real handleConn / handleStream, upstream replies in every order, immediately or 2.5 s apart against a 2 s idle time-out, with and without a limiter that admits only the first stream; on overlay copies of the DoQ listener and the request path with a pause point before every statement (one goroutine held between two statements, preemption bound 1) and owned selects; oracle: every admitted stream carries exactly its own response, refused streams carry nothing (or REFUSED), ownership audit"
+	st := runExplore(t, rep, -1, func(c *choice.Ctx) { c03QuicOverlap(c, rep) })
+	rep.Count("executions_quic_overlap", st.Executions)
 }
 
 func TestVerifC03(t *testing.T) {
